@@ -555,35 +555,60 @@ def rule_r9(ctx) -> RuleResult:
             # ROOT could be popped: accept only if some kind at which the loop certainly ends is known to be on the stack
             guards = []
             cg_, affecting_ = P.TopKind._graph(ctx)
-            for n in walk_no_nested(fn):
-                if not (isinstance(n, ast.If) and n.lineno < lp.lineno and n.body and isinstance(n.body[-1], (ast.Return, ast.Raise))):
-                    continue
+            parents_ = m.parents
+
+            def terminates(block) -> bool:
+                return bool(block) and isinstance(block[-1], (ast.Return, ast.Raise, ast.Continue, ast.Break))
+
+            # tests known to be FALSE when the loop is reached, each with the statements executed between the test and the loop:
+            # (a) `if T: ...; return` earlier in a block that encloses the loop, (b) the loop sits in the else arm of `if T:`
+            false_tests = []
+            node_, between = lp, []
+            while node_ in parents_ and node_ is not fn:
+                par = parents_[node_]
+                for fld in ("body", "orelse", "finalbody"):
+                    blk = getattr(par, fld, None)
+                    if isinstance(blk, list) and any(x is node_ for x in blk):
+                        idx = [i for i, x in enumerate(blk) if x is node_][0]
+                        before = blk[:idx]
+                        for j in range(len(before) - 1, -1, -1):
+                            st_ = before[j]
+                            if isinstance(st_, ast.If) and not st_.orelse and terminates(st_.body):
+                                false_tests.append((st_, before[j + 1:] + between))
+                        between = before + between
+                        if isinstance(par, ast.If) and fld == "orelse":
+                            false_tests.append((par, list(between)))
+                node_ = par
+                if isinstance(par, (ast.FunctionDef, ast.AsyncFunctionDef)):
+                    break
+            for n, stmts_between in false_tests:
                 t = n.test
                 parts = t.values if isinstance(t, ast.BoolOp) and isinstance(t.op, ast.Or) else [t]
                 found = []
-                for v in parts:  # `if not have(K) [or ...]: ...; return`  => K present afterwards
+                for v in parts:  # `not have(K) [or ...]` is false  => K present
                     if isinstance(v, ast.UnaryOp) and isinstance(v.op, ast.Not):
                         found.extend(have_kinds(v.operand))
                 if not found:
                     continue
-                # the presence fact survives only if nothing between the test and the loop can pop:
-                # statements at function top level after the `if` and before the loop
+                # the presence fact survives only if nothing executed between the test and the loop can pop
                 killers = []
-                for st2 in fn.body:
-                    if n.end_lineno < st2.lineno < lp.lineno:
-                        if isinstance(st2, ast.If) and st2.body and isinstance(st2.body[-1], (ast.Return, ast.Raise)) and not st2.orelse:
-                            # an early exit: only its test is evaluated on the path that reaches the loop
-                            scope_nodes = [st2.test]
-                        else:
+                for st2 in stmts_between:
+                    if isinstance(st2, ast.If) and terminates(st2.body) and not st2.orelse:
+                        scope_nodes = [st2.test]   # an early exit: only its test is evaluated on the path that reaches the loop
+                    elif isinstance(st2, ast.If):
+                        scope_nodes = [st2.test]   # an if/elif chain whose else arm holds the loop: the tests on the way
+                        if not any(x is lp for x in ast.walk(st2)):
                             scope_nodes = [st2]
-                        for sn in scope_nodes:
-                            returned = {id(c) for r in ast.walk(sn) if isinstance(r, ast.Return) and r.value is not None
-                                        for c in ast.walk(r.value)}
-                            for c in ast.walk(sn):
-                                if isinstance(c, ast.Call) and id(c) not in returned:
-                                    callees = cg_.callees_in(dotted, c)
-                                    if {x for x in callees if not x.startswith("%")} & affecting_:
-                                        killers.append(c)
+                    else:
+                        scope_nodes = [st2]
+                    for sn in scope_nodes:
+                        returned = {id(c) for r in ast.walk(sn) if isinstance(r, ast.Return) and r.value is not None
+                                    for c in ast.walk(r.value)}
+                        for c in ast.walk(sn):
+                            if isinstance(c, ast.Call) and id(c) not in returned:
+                                callees = cg_.callees_in(dotted, c)
+                                if {x for x in callees if not x.startswith("%")} & affecting_:
+                                    killers.append(c)
                 if killers:
                     rr.informational.append({"fn": dotted, "guard": unparse(t)[:60], "invalidated_by": unparse(killers[0])[:60]})
                     invalidated.append((n, killers[0]))
